@@ -1,6 +1,7 @@
 package main
 
 import (
+	"os"
 	"fmt"
 	"go/types"
 	"strings"
@@ -182,13 +183,17 @@ func (f *frame) canInline(callee *ssa.Function) bool {
 	}
 	// inside very large functions only tiny helpers are inlined (query size)
 	if len(f.stack) > 0 && len(f.stack[0].Blocks) > 80 {
-		if len(callee.Blocks) > 8 || f.depth >= 2 {
+		if len(callee.Blocks) > 8 || (f.depth >= 2 && (len(callee.Blocks) > 3 || f.depth >= 4)) {
 			return false
 		}
 	}
-	f.c.inlinedBlocks += len(callee.Blocks)
-	if f.c.inlinedBlocks > 3000 {
-		return false
+	if len(callee.Blocks) > 3 {
+		// budget for the total amount of inlined code per function under verification;
+		// straight-line accessors are always inlined (specs read fields through them)
+		f.c.inlinedBlocks += len(callee.Blocks)
+		if f.c.inlinedBlocks > 3000 {
+			return false
+		}
 	}
 	// no loops in inlined bodies unless small
 	for _, b := range callee.Blocks {
@@ -365,6 +370,13 @@ func (f *frame) callHavocRes(x ssa.CallInstruction, callee *ssa.Function, st Sta
 	}
 	if ms.top {
 		c.note("havoc-all:" + name)
+	}
+	if os.Getenv("GVC_TRACE_MODS") != "" {
+		pos := ""
+		if si, ok := x.(ssa.Instruction); ok {
+			pos = c.eng.prog.Fset.Position(si.Pos()).String()
+		}
+		fmt.Fprintf(os.Stderr, "MODS %s %s top=%v %v pats=%v\n", pos, name, ms.top, ms.list(), ms.pats)
 	}
 	var keep func(string) bool
 	if !ms.top {
@@ -698,6 +710,13 @@ func (f *frame) externalCall(x ssa.CallInstruction, callee *ssa.Function, st Sta
 	name := callee.Name()
 	ptypes := paramTypes(callee.Signature)
 	pure := isKnownPureExternal(callee)
+	if os.Getenv("GVC_TRACE_MODS") != "" {
+		pos := ""
+		if si, ok := x.(ssa.Instruction); ok {
+			pos = c.eng.prog.Fset.Position(si.Pos()).String()
+		}
+		fmt.Fprintf(os.Stderr, "MODS external %s %s pure=%v\n", pos, callee.String(), pure)
+	}
 	if !pure {
 		for i, a := range args {
 			if i >= len(ptypes) {
